@@ -54,7 +54,9 @@ def run(res, a):
         return
     k = 3 if big else 1
     plan = [("span", 3 * k, 300), ("fillfree", 2 * k, 400), ("realloc", 2 * k, 250), ("aligned", 2 * k, 250), ("heaps", 2 * k, 250), ("huge", 2 * k, 30),
-            ("hugechurn", 4 * k, 50), ("boundary", 1 * k, 250)]
+            ("hugechurn", 4 * k, 50), ("boundary", 1 * k, 250),
+            # whole-segment fill, page frees at slice positions biased to the word boundaries of the commit mask (multi-word purge masks)
+            ("scatter", 1 * k, 0)]
     for ci, c in enumerate(cfgs):
         opts = [(idx[n], (v if v >= 0 else (1 << 64) + v)) for n, v in sorted(c.items()) if n in idx]
         exe = exe_sec if ci % 2 == 0 else exe_rel
@@ -66,5 +68,7 @@ def run(res, a):
     res.cov["uncovered_option_value_pairs"] = uncovered
     res.cov["rule"] = ("the C01-C05/C12 oracles (overlap, content, alignment, zero, realloc, heap walk) re-run on API traces under a pairwise covering set of "
                        "option settings (purge delay off/immediate/delayed with a virtual clock advanced inside the traces, decommit or reset, eager/lazy "
-                       "commit, arena on/off/small, reclaim-on-free, segment target); half of the configurations run a -DMI_SECURE=1 build in which "
+                       "commit, arena on/off/small, reclaim-on-free, segment target; the `scatter` profile fills a whole segment and frees pages at slice "
+                       "positions biased to the 64-bit word boundaries of the commit mask, so that purge masks with runs in several words are purged "
+                       "next to pages in use -- input_distribution.harness_coverage counts the sampled multi-word pending masks); half of the configurations run a -DMI_SECURE=1 build in which "
                        "decommit revokes access, so any read or write of decommitted memory faults. distinct = distinct traces")
